@@ -3,6 +3,79 @@
 
 use std::alloc::{GlobalAlloc, Layout, System};
 use std::cell::Cell;
+use std::sync::atomic::{AtomicUsize, Ordering};
+
+/// A single allocation request above this many bytes, made while a case label is set on the
+/// requesting thread (see `set_case`), is treated as "input-driven unbounded allocation": the
+/// allocator writes the label and the size to the marker file and aborts the process *before* the
+/// system allocator is asked (which would either succeed and thrash, or fail and abort without
+/// saying which input it was). `guarded::run` in the parent process turns that into a violation.
+pub static HUGE_LIMIT: AtomicUsize = AtomicUsize::new(1 << 31);
+
+const LABEL_CAP: usize = 512;
+
+thread_local! {
+    static CASE: Cell<([u8; LABEL_CAP], usize)> = const { Cell::new(([0; LABEL_CAP], 0)) };
+}
+
+/// Labels the input the calling thread is about to feed to the subject (no allocation).
+pub fn set_case(label: &str) {
+    let mut buf = [0u8; LABEL_CAP];
+    let n = label.len().min(LABEL_CAP);
+    buf[..n].copy_from_slice(&label.as_bytes()[..n]);
+    let _ = CASE.try_with(|c| c.set((buf, n)));
+}
+
+pub fn clear_case() {
+    let _ = CASE.try_with(|c| c.set(([0; LABEL_CAP], 0)));
+}
+
+pub fn marker_path() -> Option<std::ffi::CString> {
+    std::env::var("VERIF_ALLOC_MARKER").ok().and_then(|p| std::ffi::CString::new(p).ok())
+}
+
+fn huge(size: usize) {
+    if size < HUGE_LIMIT.load(Ordering::Relaxed) {
+        return;
+    }
+    let Ok((buf, n)) = CASE.try_with(Cell::get) else { return };
+    if n == 0 {
+        return;
+    }
+    // async-signal-safe style: no allocation from here on
+    if let Some(path) = MARKER.get() {
+        unsafe {
+            let fd = libc::open(path.as_ptr(), libc::O_WRONLY | libc::O_CREAT | libc::O_TRUNC, 0o644);
+            if fd >= 0 {
+                let mut digits = [0u8; 24];
+                let mut i = digits.len();
+                let mut v = size;
+                loop {
+                    i -= 1;
+                    digits[i] = b'0' + (v % 10) as u8;
+                    v /= 10;
+                    if v == 0 {
+                        break;
+                    }
+                }
+                libc::write(fd, digits[i..].as_ptr().cast(), digits.len() - i);
+                libc::write(fd, b"\n".as_ptr().cast(), 1);
+                libc::write(fd, buf.as_ptr().cast(), n);
+                libc::close(fd);
+            }
+        }
+    }
+    std::process::abort();
+}
+
+static MARKER: std::sync::OnceLock<std::ffi::CString> = std::sync::OnceLock::new();
+
+/// Call once at start-up (before any labelled case) in the child process.
+pub fn arm_marker() {
+    if let Some(p) = marker_path() {
+        let _ = MARKER.set(p);
+    }
+}
 
 pub struct Counting;
 
@@ -14,6 +87,7 @@ thread_local! {
 
 unsafe impl GlobalAlloc for Counting {
     unsafe fn alloc(&self, layout: Layout) -> *mut u8 {
+        huge(layout.size());
         let _ = CUR.try_with(|c| {
             let v = c.get() + layout.size() as isize;
             c.set(v);
@@ -35,6 +109,7 @@ unsafe impl GlobalAlloc for Counting {
         System.dealloc(ptr, layout)
     }
     unsafe fn realloc(&self, ptr: *mut u8, layout: Layout, new_size: usize) -> *mut u8 {
+        huge(new_size);
         let _ = CUR.try_with(|c| {
             let v = c.get() + new_size as isize - layout.size() as isize;
             c.set(v);
